@@ -158,3 +158,16 @@ def mk(name, inp, model, strategy, j, extra=(), cc_model=None, **kw):
     }
     d.update(kw)
     return d
+
+
+# A job built around the window between resetting and refilling the symbol
+# tables: only `Constants` is enabled, y -> false is accepted first, and
+# x -> false is acceptable only afterwards.  A task generator that looks up
+# the sort of x while the tables are empty leaves "x has no sort" behind.
+WINDOW_INPUT = ('(declare-const x Bool)\n(declare-const a Bool)\n'
+                '(declare-const y Bool)\n(assert y)\n(assert (or x a))\n')
+_WD = (r'\( declare-const x Bool \) \( declare-const a Bool \) '
+       r'\( declare-const y Bool \) ')
+WINDOW_MODEL = ('re', '^' + _WD + r'\( assert (y \) \( assert \( or x a|'
+                r'false \) \( assert \( or (x|false) a) \) \)$')
+WINDOW_ARGS = ['--disable-all', '--constants']
